@@ -34,6 +34,7 @@ def leaf_version():
     ok = "av_valid(p)"
     return HSpec("i_version", [
         Out("normal", ok, post=[
+            CANARY("C05/canary-always-1.4", "proto_index(gateway._protocol) == 0"),
             P("C05/version-recorded", "gateway._protocol_version == p"),
             P("C05/select", "proto_index(gateway._protocol) == select_idx(av_section(p, 0), av_section(p, 1))"),
             P("C05/agreement", "gateway._message_schema.ctx_protocol == gateway._protocol"),
@@ -97,6 +98,8 @@ def leaf_set():
     return HSpec("set", with_te([
         MISSING_NODE.copy(), MISSING_CHILD.copy(),
         Out("normal", ok, post=[
+            CANARY("C04/canary-set-records-nothing", "registry_unchanged()"),
+            CANARY("C06/canary-set-never-writes", "log_unchanged()"),
             P("C04/value-recorded", f"t in {V} and {V}[t] == p"),
             P("C04/only-that-value", f"dict_only_at(old({V}), t)"),
         ], log=[reboot]),
@@ -263,6 +266,7 @@ def _flush_contract():
         ],
         raises={"TransportError": [
             H("C07/log-grows", "wlen() >= old(wlen())"),
+            CANARY("C08/canary-failure-loses-nothing", "same_dict(SM)"),
             H("C08/done-is-of-that-node", "forall(lambda q: implies(q in done, old(q in SM) and k3n(q) == n), 'key3')"),
             P("C08/written-ones-gone", "forall(lambda q: implies(q in done, not (q in SM)), 'key3')"),
             P("C08/unwritten-stay", "forall(lambda q: implies(not (q in done), (q in SM) == old(q in SM) and implies(q in SM, SM[q] is old(SM[q]))), 'key3')"),
